@@ -206,7 +206,8 @@ class Setting:
             runLog.error(f"Error in setting {self.name}, val: {val}.")
             raise
 
-        self._value = self._load(val)
+        # break the link to the caller's (possibly another Settings object's) nested containers
+        self._value = self._load(copy.deepcopy(val))
 
     def addOptions(self, options: List[Option]):
         """Extend this Setting's options with extra options."""
